@@ -66,7 +66,7 @@ pub fn program_from_bytes(data: &[u8], allow_fill: bool) -> Program {
             5 => Op::ChildOfLocal { np: 0, s: seed(b) },
             6 | 7 => Op::SetLocalParent { span: sel, probe: false },
             8 | 9 => Op::EnterLocal { np: a % 2, s: seed(b), probe: false },
-            10 | 11 => Op::PopGuard { collect: true, early: false },
+            10 | 11 => Op::PopGuard { collect: true, early: false, unwind: false },
             12 | 13 | 14 => Op::Finish { span: sel },
             15 => Op::Cancel { span: sel },
             16 => Op::AddEvent { handle: Some(sel), n: a % 2, s: seed(b), re: vec![] },
@@ -82,13 +82,13 @@ pub fn program_from_bytes(data: &[u8], allow_fill: bool) -> Program {
                 } else if a % 4 == 2 {
                     Op::CollectorStart { probe: false }
                 } else {
-                    Op::PushChildSpans { span: sel, set: r.u16() }
+                    Op::PushChildSpans { span: sel, set: r.u16(), last: false }
                 }
             }
         };
         cur.push(op);
     }
-    Program { cancelable, threads, cycles, schedule }
+    Program { cancelable, threads, cycles, schedule, fine: false }
 }
 
 pub const KNOWN: &[&str] = &[
